@@ -74,6 +74,13 @@ AesSeqViol(e) ==
                      ~Has(r, "panic") /\ ~r.err /\ Has(r, "payload") /\ r.payload = e.packets[i].payload, c)
           : i \in 1..Len(e.got) }
   \cup Check("C08", "aes-decode-returns-original-payload-on-a-used-layer", Len(e.got) = Len(e.packets), c)
+  \* the same layer value serialising each payload in turn: every packet decrypts (with its own IV) to payload + 01,02,..,n,n
+  \cup (IF ~Has(e, "ser") THEN {} ELSE
+        UNION { LET r == e.ser[i] IN
+                Check("C08", "aes-serialise-is-the-specification-encryption-on-a-used-layer",
+                      ~Has(r, "panic") /\ ~r.err /\ Has(r, "plain") /\ r.plain = e.packets[i].padded, c)
+                : i \in 1..Len(e.ser) }
+        \cup Check("C08", "aes-serialise-is-the-specification-encryption-on-a-used-layer", Len(e.ser) = Len(e.packets), c))
 V2SeqViol(e) ==
   LET c == Ctx(e) IN
   UNION { LET r == e.got[i]  x == e.steps[i].exp  after == i > 1 IN
